@@ -15,6 +15,11 @@
 Added after the second and third seeding rounds:
   arm:<kind>:edge-on-every-path  every reported clause yields its edge (no path through an arm of Conflict::graph skips add_edge;
                 the ForbidMultiple chain's first node is the only exception); requires edges are added unconditionally per candidate
+
+Added after the fifth and sixth seeding rounds:
+  encoding / candidate-lists  the clauses the edges are read from say what the provider said (C03-13..15)
+  core             all rules of C01 and C02 (rules/core.py): the report is a proof only if every clause in it follows from the problem (C03-16)
+  cached-implies-ok / result-must-use  what Conflict::graph reads from the cache cannot fail or be replaced by a default after the solve (C03-17)
 """
 from common import *
 import q, enc
